@@ -115,18 +115,18 @@ PROPS = {
                      'round-trip clause reduces to C01 + derived configuration valid (postcondition); not re-proved here', 'Verus/Z3 sound'],
         not_decided=['encoder/decoder round trip from derived parameters (see C01)']),
     'C17': dict(
-        level='proof', units=[('V', 'V-CACHE', 'v_cache')],
+        level='proof', units=[('V', 'V-CACHE', 'v_cache'), ('V', 'V-SBENEW', 'v_sbenew')],
         explanation='lock-invariant proof (Owicki-Gries): get_or_generate_source_block_encoding_plan extracted with rule L1 (each lock() yields an ARBITRARY cache state satisfying cache_inv, i.e. whatever '
                     'other threads left; every exit of a guard scope must re-establish cache_inv) and D4; proves: returned plan is the plan for the requested symbol count (transparency), a plan is stored only under its own count, '
-                    'at most 64 plans, FIFO and map in bijection. All interleavings are covered by mutual exclusion, not by exploration.',
+                    'at most 64 plans, FIFO and map in bijection. All interleavings are covered by mutual exclusion, not by exploration. SourceBlockEncoder::with_encoding_plan (V-SBENEW) returns only for a plan whose source_symbol_count equals the block\'s symbol count (any other plan is refused by panic), and its intermediate symbols are the fold of exactly that plan\'s operations over the block\'s D vector.',
         assumptions=['std Mutex mutual exclusion / OnceLock single initialisation', 'SourceBlockEncodingPlan::generate deterministic in its argument', 'vstd HashMap/VecDeque/Arc specifications',
                      'no panic inside a critical section other than allocation failure (no arithmetic/index obligations remain there), so poisoning is unreachable'],
         not_decided=['that the encoder built from a plan equals the one built without a plan (plan replay == direct solve): see C06/C09 V-SLAB']),
     'C18': dict(
-        level='proof', units=[('V', 'V-ENC', 'v_enc'), ('V', 'V-ENCNEW', 'v_encnew')],
+        level='proof', units=[('V', 'V-ENC', 'v_enc'), ('V', 'V-ENCNEW', 'v_encnew'), ('V', 'V-SBENEW', 'v_sbenew')],
         explanation='repair_packets(start, n) extracted verbatim: for all K <= 56403, start, n with K + start + n <= 2^24: exactly n packets, packet i == repair_packet_spec(encoder, start + i) '
                     '(block number, ESI K+start+i, payload Enc over ISI K\'+start+i); window==singles, overlap agreement, distinct IDs, every ESI < 2^24 producible are lemmas over that contract; '
-                    'get_encoded_packets(r): block by block in order, the K source packets then repair_packets(0, r) (positions given by block_at); Encoder::new numbers block b with b; source_packets (rule D9: (0..K).map(..).collect() desugared to the loop it denotes) returns K packets, packet i = (block number, ESI i, source symbol i)',
+                    'get_encoded_packets(r): block by block in order, the K source packets then repair_packets(0, r) (positions given by block_at); Encoder::new numbers block b with b; source_packets (rule D9: (0..K).map(..).collect() desugared to the loop it denotes) returns K packets, packet i = (block number, ESI i, source symbol i); with_encoding_plan keeps the block number, refuses a plan for another symbol count, and its result is a function of (plan operations, block symbols) only, so equal plans are interchangeable (V-SBENEW)',
         assumptions=['intermediate_tuple / enc_into / table look-ups are external_body here: deterministic functions of their arguments (their values are decided under C15/C04)',
                      'Verus/Z3 sound'],
         not_decided=['plan interchangeability rests on generate() being deterministic (C17 assumption)']),
@@ -156,7 +156,7 @@ PROPS = {
         assumptions=[SOLVER_ASSUMED + ' -- in particular the final answer is independent of the ORDER of repair rows only if the solver is exact', 'derive(Clone) is a structural copy (std)'],
         not_decided=['order independence of the solver result under permutation of repair rows (solver contract)']),
     'C05': dict(
-        level='proof', units=[('V', 'V-PART', 'v_part'), ('V', 'V-BLOCKS', 'v_blocks'), ('V', 'V-ENCNEW', 'v_encnew'), ('V', 'V-UNPACK', 'v_unpack'), ('V', 'V-CRSYM', 'v_crsym'), ('V', 'V-ENC', 'v_enc'), ('V', 'V-DEC', 'v_dec'), ('K', 'K-LAYOUT', None)],
+        level='proof', units=[('V', 'V-PART', 'v_part'), ('V', 'V-BLOCKS', 'v_blocks'), ('V', 'V-ENCNEW', 'v_encnew'), ('V', 'V-UNPACK', 'v_unpack'), ('V', 'V-CRSYM', 'v_crsym'), ('V', 'V-SBENEW', 'v_sbenew'), ('V', 'V-ENC', 'v_enc'), ('V', 'V-DEC', 'v_dec'), ('K', 'K-LAYOUT', None)],
         explanation='Partition[I,J] characterised over integers (generic function, all inputs); calculate_block_offsets returns Z contiguous blocks, ZL of KL*T then ZS of KS*T bytes covering exactly Kt*T >= F with less than one symbol of padding; '
                     'Encoder::new builds block encoder b with number b from exactly (object ++ zeros)[start_b..end_b] and a plan for its symbol count (only the tail of the last block reaches the zeros); '
                     'Decoder::new creates Z block decoders numbered 0..Z-1 with KL/KS symbols and the configured T, N, Al; unpack_sub_blocks writes symbol idx to the positions of the RFC 4.4.1.2 layout for all T, Al, N, K; create_symbols (encoder side, V-CRSYM): for all T, Al, N, K and data, K symbols of T bytes, symbol m = concatenation over the sub-blocks sb of block bytes [K*off(sb) + m*bytes(sb), +bytes(sb)) (both branches: N > 1 nested loops, N == 1 chunks), and lemma_unpack_inverts: un-interleaving that symbol restores exactly those block bytes; source_packets: K packets, ESI i, payload = symbol i (V-ENC)',
@@ -172,7 +172,7 @@ PROPS = {
                      'V-ENCINTO: contracts of SymbolSlab::get (proved in V-SLAB), octets::add_assign (K-KERN) and the three table look-ups (V-TAB) assumed; termination of the `while b1 >= P` walk not proved in Verus (partial correctness)'],
         not_decided=['scalar homogeneity (needs associativity/commutativity of the field product) is not machine-checked']),
     'C06': dict(
-        level='proof', units=[('V', 'V-SLAB', 'v_slab'), ('V', 'V-TAB', 'v_tab'), ('K', 'K-TAB', None)],
+        level='proof', units=[('V', 'V-SLAB', 'v_slab'), ('V', 'V-SBENEW', 'v_sbenew'), ('V', 'V-TAB', 'v_tab'), ('K', 'K-TAB', None)],
         explanation='decided part only: plan replay applies exactly the op list with the slab interpreter (gen_intermediate_symbols_with_plan == apply_ops over the D vector), the final Reorder is the only '
                     'logical->physical mapping and get/get_mut/get_pair_mut honour it, a plan generated on 1-byte symbols is valid for every symbol size (column independence); table well-formedness for all 477 rows',
         assumptions=['kernel contracts (K-KERN)', SOLVER_ASSUMED],
